@@ -29,14 +29,19 @@ func TypeName(t entities.IEDataType) string {
 // Field is the JSON form of a Wire.tla field specifier.
 type Field struct {
 	ID   int    `json:"id"`
-	Ent  int    `json:"ent"`
+	Ent  int    `json:"ent"`  // -1 when the number does not fit a TLC integer; EntB is authoritative
+	EntB []int  `json:"entb"` // enterprise number, 4 bytes
 	Len  int    `json:"len"`
 	Type string `json:"type"`
 	Name string `json:"name"`
 }
 
 func FieldOf(ie *entities.InfoElement) Field {
-	return Field{ID: int(ie.ElementId), Ent: int(ie.EnterpriseId), Len: int(ie.Len), Type: TypeName(ie.DataType), Name: ie.Name}
+	ent := int(ie.EnterpriseId)
+	if ie.EnterpriseId >= 1<<31 {
+		ent = -1
+	}
+	return Field{ID: int(ie.ElementId), Ent: ent, EntB: Digits(uint64(ie.EnterpriseId), 4), Len: int(ie.Len), Type: TypeName(ie.DataType), Name: ie.Name}
 }
 
 func FieldsOf(ies []*entities.InfoElement) []Field {
@@ -161,4 +166,27 @@ func VarPrefix(n int) []byte {
 		return []byte{byte(n)}
 	}
 	return []byte{255, byte(n >> 8), byte(n)}
+}
+
+// EncodeAbs is the harness's own value encoder (input builder only).
+func EncodeAbs(typ string, length int, abs []int) []byte {
+	if typ == "boolean" {
+		if len(abs) == 1 && abs[0] == 1 {
+			return []byte{1}
+		}
+		return []byte{2}
+	}
+	b := make([]byte, 0, len(abs)+3)
+	if length == 65535 {
+		b = append(b, VarPrefix(len(abs))...)
+	}
+	for _, x := range abs {
+		b = append(b, byte(x))
+	}
+	return b
+}
+
+// SpecOf is the wire specifier of an information element.
+func SpecOf(ie *entities.InfoElement) Spec {
+	return Spec{ID: int(ie.ElementId), Len: int(ie.Len), Ent: ie.EnterpriseId}
 }
